@@ -299,6 +299,11 @@ def check_roundtrip(ck, lib, c, gm, s, steps):
        (back.ten_J, mm.ten_J_rownnz, mm.ten_J_rowadr, mm.ten_J_colind), mm.ntendon)):
     if nme == 'ten_J' and not nr:
       continue
+    if nme == 'ten_J' and not FINDINGS and np.any(np.asarray(md.ten_J) == 0):
+      # candidate finding F25: get_data packs the dense ten_J with mju_dense2sparse (drops exact zeros) but MjData.ten_J
+      # follows the static pattern m.ten_J_colind: a structural entry that is exactly 0 shifts all later values
+      ck.label('B:finding-ten_J-structural-zero')
+      continue
     A = dense(mujoco, *args_a, nr, nv)
     Bm = dense(mujoco, *args_b, nr, nv)
     if not bits_equal(A, Bm):
